@@ -118,6 +118,7 @@ fn gen(seed: u64, idx: u64, _tier: Tier) -> Plan {
         t += *rng.pick(&[20_000u64, 150_000, 400_000]);
     }
     sentinels(&mut plan, 2, t);
+    wall_steps(&mut rng, &mut plan);
     settle(&mut plan, 1400);
     if faulty_boot {
         plan.world.faults_until_ms = 400;
